@@ -61,7 +61,13 @@ class NF:
             inner = self.equal_present(sa, va, sb, vb, base, module)
         if not opt:
             return simp(z3.And(z3.Not(is_none(a)), z3.Not(is_none(b)), inner))
-        return simp(z3.Or(z3.And(A, B), z3.And(z3.Not(A), z3.Not(B), inner)))
+        eq = z3.Or(z3.And(A, B), z3.And(z3.Not(A), z3.Not(B), inner))
+        cls_ = self.eng.find_class(base.split("[")[0], module)
+        if base == "str" or (cls_ is not None and cls_.is_dataclass):
+            # the allowed loss is one-directional: the wire form OMITS an empty optional string / an all-empty details object ('' or Details(None) may come
+            # back as None); a None that comes back as '' or as an empty details object is a value the original did not have
+            eq = z3.And(eq, z3.Implies(is_none(a), is_none(b)))
+        return simp(eq)
 
     def equal_present(self, sa, va, sb, vb, base, module):
         cls = self.eng.find_class(base.split("[")[0], module)
